@@ -91,7 +91,7 @@ fn check(r: Result<&str, StringError>, b: &[u8], base: usize, fixed: usize, size
         Err(StringError::MissingNul(_)) => vassert!(spec == Spec::MissingNul, "MissingNul only when there is no NUL inside the declared size"),
         Err(StringError::Utf8(_)) => vassert!(spec == Spec::Utf8 || !check_utf8, "Utf8 error only for invalid UTF-8 before the first NUL"),
     }
-    cover!(matches!(spec, Spec::Text(2)), "two-byte text");
+    cover!(matches!(spec, Spec::Text(1)), "one-byte text");
     cover!(spec == Spec::MissingNul && size > fixed, "no NUL inside the size");
 }
 
@@ -132,6 +132,24 @@ pub fn c17_parse_cmdline_3() {
 #[cfg_attr(kani, kani::unwind(10))]
 pub fn c17_parse_cmdline_4() {
     parse_kind(1, 4, true);
+}
+
+// @harness props=C17,C05 tier=quick panic=forbid
+// @encodes multiboot2::BootLoaderNameTag::name parse_slice_as_string (core's memchr / UTF-8 validation executed)
+// @bound text area of 0..=2 bytes, padding / neighbour bytes symbolic
+#[cfg_attr(kani, kani::proof)]
+#[cfg_attr(kani, kani::unwind(10))]
+pub fn c17_parse_name_2() {
+    parse_kind(2, 2, true);
+}
+
+// @harness props=C17,C05 tier=quick panic=forbid
+// @encodes multiboot2::ModuleTag::cmdline parse_slice_as_string (core's memchr / UTF-8 validation executed)
+// @bound text area of 0..=2 bytes, padding / neighbour bytes symbolic
+#[cfg_attr(kani, kani::proof)]
+#[cfg_attr(kani, kani::unwind(10))]
+pub fn c17_parse_module_2() {
+    parse_kind(3, 2, true);
 }
 
 // @harness props=C17 tier=thorough panic=forbid timeout=3000
